@@ -267,7 +267,7 @@ func runCurve(c *mon.Ctx, in *kzgs.Inst) {
 		fn   func()
 	}{
 		{"srs", e.secSRS}, {"honest", e.secHonest}, {"exact", e.secExact}, {"batch", e.secBatch},
-		{"multi", e.secMulti}, {"serial", e.secSerial}, {"mpc", e.secMpc}, {"lagrange", e.secLagrange},
+		{"multi", e.secMulti}, {"serial", e.secSerial}, {"mpc", e.secMpc}, {"lagrange", e.secLagrange}, {"foreign", e.secForeign},
 	}
 	if *flagMode == "race" {
 		secs = secs[:0]
